@@ -18,6 +18,7 @@ mod fam_driver;
 mod fam_emitter;
 mod fam_files;
 mod fam_lints;
+mod fam_doccomment;
 mod fam_options;
 mod fam_preproc;
 mod fam_repro;
@@ -104,6 +105,7 @@ pub fn make_family(name: &str) -> Option<Box<dyn Family>> {
         "repro" => Some(Box::new(fam_repro::Repro::default())),
         "rules" => Some(Box::new(fam_rules::Rules::default())),
         "lints" => Some(Box::new(fam_lints::Lints::default())),
+        "doccomment" => Some(Box::new(fam_doccomment::DocComments)),
         "wire" => Some(Box::new(fam_wire::Wire::default())),
         _ => None,
     }
